@@ -94,7 +94,8 @@ theorem Moved.aunitBlk {s s' : St} {bo bl : Nat} (h : Moved s s' bo bl) : Fsm.au
 /-- relocation / growth of the bitmap: the invariant holds for the new bitmap, and every block that was
     allocated stays allocated -/
 theorem inv_installBitmap_move {s : St} (hI : Inv s) {bo bl : Nat} (hbl : bl % bsz s = 0) (hbo : bo % bsz s = 0)
-    (hge : s.bmlen ≤ bl) (hfit : (bo + bl) / bsz s + 1 ≤ bl * 8) (hhdr : hdrBlk s ≤ bo / bsz s) :
+    (hge : s.bmlen ≤ bl) (hfit : (bo + bl) / bsz s + 1 ≤ bl * 8) (hhdr : hdrBlk s ≤ bo / bsz s)
+    (hpg : bo % s.aunit = 0) :
     Inv (installBitmap s bo bl) ∧
     (∀ i, i < s.bits.size → bit s.bits i = true → bit (installBitmap s bo bl).bits i = true) := by
   have hM := installBitmap_moved s bo bl
@@ -118,7 +119,7 @@ theorem inv_installBitmap_move {s : St} (hI : Inv s) {bo bl : Nat} (hbl : bl % b
   have hszold : s.bits.size = s.bmlen * 8 := hI.size
   have hin := hI.bm_in
   have hlp := hI.bmlen_pos
-  refine ⟨⟨installBitmap_idxOk _ _ _, ?_, ?_, ?_, ?_, ?_, ?_, ?_, ?_, ?_⟩, hold⟩
+  refine ⟨⟨installBitmap_idxOk _ _ _, ?_, ?_, ?_, ?_, ?_, ?_, ?_, ?_, ?_, ?_, ?_, ?_⟩, hold⟩
   · rw [hbits, size_setRange, hsize, hM.nbits]
   · rw [hM.hdrBlk]
     refine ⟨hI.hdr.1, fun i h => hold i ?_ (hI.hdr.2 i h)⟩
@@ -134,17 +135,21 @@ theorem inv_installBitmap_move {s : St} (hI : Inv s) {bo bl : Nat} (hbl : bl % b
   · rw [hM.bmlen, hM.bsz]; exact hbl
   · rw [hM.bmLenBlk]; exact div_pos_of_mod hk hbl (by omega)
   · rw [hM.aunitBlk]; exact hI.au
+  · rw [hM.aunit, hM.bsz]; exact hI.aunit_al
+  · rw [hM.bmoff, hM.aunit]; exact hpg
+  · rw [hM.hdrlen, hM.bsz]; exact hI.hdr_al
 
 /-- first initialisation (fresh file, `clear`): the invariant is established -/
 theorem inv_installBitmap_new {s : St} (h0 : s.bmlen = 0) {bo bl : Nat} (hbl : bl % bsz s = 0) (hbo : bo % bsz s = 0)
     (hpos : 0 < bl) (hfit : (bo + bl) / bsz s + 1 ≤ bl * 8) (hh0 : 0 < hdrBlk s) (hhdr : hdrBlk s ≤ bo / bsz s)
-    (hau : 0 < aunitBlk s) : Inv (installBitmap s bo bl) := by
+    (hau : 0 < aunitBlk s) (hal : s.aunit % bsz s = 0) (hpg : bo % s.aunit = 0) (hha : s.hdrlen % bsz s = 0) :
+    Inv (installBitmap s bo bl) := by
   have hM := installBitmap_moved s bo bl
   have hk := bsz_pos s
   have hbits := installBitmap_bits_new h0 bo bl
   have hsum := div_add_div_of_mod hk hbo hbl
   have hnn : bo / bsz s ≤ bo / bsz s + bl / bsz s := Nat.le_add_right _ _
-  refine ⟨installBitmap_idxOk _ _ _, ?_, ?_, ?_, ?_, ?_, ?_, ?_, ?_, ?_⟩
+  refine ⟨installBitmap_idxOk _ _ _, ?_, ?_, ?_, ?_, ?_, ?_, ?_, ?_, ?_, ?_, ?_, ?_⟩
   · rw [hbits, size_setRange, size_setRange, Array.size_replicate, hM.nbits]
   · rw [hM.hdrBlk]
     refine ⟨hh0, fun i h => ?_⟩
@@ -165,6 +170,9 @@ theorem inv_installBitmap_new {s : St} (h0 : s.bmlen = 0) {bo bl : Nat} (hbl : b
   · rw [hM.bmlen, hM.bsz]; exact hbl
   · rw [hM.bmLenBlk]; exact div_pos_of_mod hk hbl hpos
   · rw [hM.aunitBlk]; exact hau
+  · rw [hM.aunit, hM.bsz]; exact hal
+  · rw [hM.bmoff, hM.aunit]; exact hpg
+  · rw [hM.hdrlen, hM.bsz]; exact hha
 
 theorem inv_ensureSize {s : St} (hI : Inv s) (sz : Nat) : Inv (ensureSize s sz) := by
   apply hI.of_frame (ensureSize_frame _ _) (hI.ix.congr (by simp) (by simp) (by simp) (by simp)) (by simp)
@@ -219,7 +227,8 @@ theorem initLw_spec {s : St} (hI : Inv s) (bo bl : Nat) (hhdr : hdrBlk s ≤ bo 
           have hge1 : s1.bmlen ≤ bl := by rw [hf1.bmlen]; omega
           have hfit1 : (bo + bl) / bsz s1 + 1 ≤ bl * 8 := by rw [hf1.bsz]; omega
           have hhdr1 : hdrBlk s1 ≤ bo / bsz s1 := by rw [hf1.hdrBlk, hf1.bsz]; exact hhdr
-          obtain ⟨hI2, hold⟩ := inv_installBitmap_move hI1 hbl hbo hge1 hfit1 hhdr1
+          have hpg1 : bo % s1.aunit = 0 := by rw [hf1.aunit]; omega
+          obtain ⟨hI2, hold⟩ := inv_installBitmap_move hI1 hbl hbo hge1 hfit1 hhdr1 hpg1
           have hM := installBitmap_moved s1 bo bl
           rw [hM.bsz]
           have hblpos : 0 < bl := by omega
